@@ -100,3 +100,23 @@ Proof.
   destruct (c_index c <=? c_index lc)%N eqn:E3; destruct (Z.of_N (c_index c) <=? Z.of_N (c_index lc)) eqn:E4;
     try (apply N.leb_le in E3); try (apply N.leb_gt in E3); try (apply Z.leb_le in E4); try (apply Z.leb_gt in E4); try lia; reflexivity.
 Qed.
+
+(* CheckTxState.AddTx as read off the source decides the CheckTx code of the model (for a
+   transaction that passed the chain-id and executed-nonce tests before it). *)
+Lemma add_tx_agrees s signer chain nonce p :
+  bytes_eqb chain (chain_id s) = true -> nonce_used (nonces s) signer nonce = false ->
+  snd (check_tx s (Tx signer chain nonce p)) =
+  if gen_add_tx_ok (Z.of_nat (List.length (chk_members s))) (mem_addr signer (chk_members s))
+                   (match aget (chk_counts s) signer with Some c => c | None => 0 end)
+                   (negb (nonce_used (chk_nonces s) signer nonce))
+  then 0%N else 1%N.
+Proof.
+  intros Hc Hn. unfold check_tx, gen_add_tx_ok. rewrite Hc, Hn. cbn [negb].
+  replace (0 <? Z.of_nat (List.length (chk_members s))) with (negb (Nat.eqb (List.length (chk_members s)) 0)).
+  2:{ destruct (chk_members s); reflexivity. }
+  destruct (negb (Nat.eqb (List.length (chk_members s)) 0) && negb (mem_addr signer (chk_members s))); [reflexivity|].
+  change gen_max_txs_per_block with max_txs_per_block.
+  destruct (max_txs_per_block <=? _); [reflexivity|].
+  rewrite negb_involutive.
+  destruct (nonce_used (chk_nonces s) signer nonce); reflexivity.
+Qed.
